@@ -74,6 +74,19 @@ func startWatchdog() {
 	}()
 }
 
+// harnessFailure is set (for good) when the machinery contradicted itself: whatever the library does in the
+// cases that follow - rapid goes on shrinking - the run is inconclusive, never a violation.
+var harnessFailure string
+
+// writeCaseFailure records a failing rapid case, unless the harness has disqualified itself.
+func writeCaseFailure(f rec.Failure) {
+	if harnessFailure != "" {
+		rec.WriteFailure(rec.Failure{Prop: f.Prop, Test: f.Test, Kind: "harness", Message: harnessFailure})
+		return
+	}
+	rec.WriteFailure(f)
+}
+
 // caseInfo is what a failing case leaves behind for the replay file.
 type caseInfo struct {
 	fields map[string]interface{}
@@ -97,17 +110,17 @@ func check(t *testing.T, prop string, f func(rt *rapid.T, c *caseInfo)) {
 				// a panic that is not rapid's own control flow: report as failure
 				if isRapidPanic(p) {
 					if rt.Failed() {
-						rec.WriteFailure(rec.Failure{Prop: prop, Test: t.Name(), Kind: "rapid", Message: lastMsg(c), Case: c.fields})
+						writeCaseFailure(rec.Failure{Prop: prop, Test: t.Name(), Kind: "rapid", Message: lastMsg(c), Case: c.fields})
 					}
 					panic(p)
 				}
 				c.set("panic", fmt.Sprint(p))
 				c.set("stack", trimStack(string(debug.Stack())))
-				rec.WriteFailure(rec.Failure{Prop: prop, Test: t.Name(), Kind: "rapid", Message: "panic: " + fmt.Sprint(p), Case: c.fields})
+				writeCaseFailure(rec.Failure{Prop: prop, Test: t.Name(), Kind: "rapid", Message: "panic: " + fmt.Sprint(p), Case: c.fields})
 				panic(p)
 			}
 			if rt.Failed() {
-				rec.WriteFailure(rec.Failure{Prop: prop, Test: t.Name(), Kind: "rapid", Message: lastMsg(c), Case: c.fields})
+				writeCaseFailure(rec.Failure{Prop: prop, Test: t.Name(), Kind: "rapid", Message: lastMsg(c), Case: c.fields})
 			}
 		}()
 		f(rt, c)
